@@ -211,12 +211,12 @@ int port_of(int fd) { sockaddr_storage ss; socklen_t l = sizeof ss; getsockname(
 // ---- C09: raw peer thread -------------------------------------------------------------------------------
 struct Peer {
   int fd = -1; int mode = 0;
-  std::mutex mx; string rx; std::deque<long> to_send; size_t out_pos = 0; bool stop = false, eof = false, close_req = false, closed = false;
+  std::mutex mx; string rx; std::deque<long> to_send; size_t out_pos = 0; bool stop = false, eof = false, close_req = false, closed = false, pause = false, paused = false;
   std::thread th;
   void run() {
     for (;;) {
       long want = -1; bool do_close = false;
-      { std::lock_guard<std::mutex> g(mx); if (stop) break; if (!to_send.empty()) { want = to_send.front(); to_send.pop_front(); } if (close_req && to_send.empty() && want < 0) do_close = true; }
+      { std::unique_lock<std::mutex> g(mx); if (stop) break; if (pause) { paused = true; g.unlock(); usleep(500); continue; } paused = false; if (!to_send.empty()) { want = to_send.front(); to_send.pop_front(); } if (close_req && to_send.empty() && want < 0) do_close = true; }
       if (want > 0) {
         string buf((size_t)want, 0); for (long i = 0; i < want; i++) buf[(size_t)i] = (char)pat(2, out_pos + (size_t)i);
         size_t off = 0; while (off < buf.size()) { size_t chunk = mode == 2 ? buf.size() - off : std::min<size_t>(buf.size() - off, mode == 1 ? 700 : 8192); ssize_t n = ::send(fd, buf.data() + off, chunk, MSG_NOSIGNAL); if (n <= 0) { if (errno == EAGAIN || errno == EINTR) { { std::lock_guard<std::mutex> g(mx); if (stop) break; } usleep(200); continue; } break; } off += (size_t)n; if (mode == 1) usleep(150); }
@@ -371,6 +371,28 @@ Outcome run_c09(const Case &c) {
       } else if (r == 0) fail("receive", "receive returned 0 (end of stream) although the peer has not closed");
       else { for (pssize i = 0; i < r; i++) if ((unsigned char)buf[i] != pat(2, in_pos + (size_t)i)) { fail("stream-in", "received bytes differ from the peer's stream at offset " + std::to_string(in_pos + (size_t)i) + " (loss, duplication or corruption)"); break; } in_pos += (size_t)r; }
       if (err) p_error_free(err); free(buf);
+    } else if (s.kind == 'T' && !peer_gone && c.blocking) {
+      // stalled receiver + send timeout: the peer stops reading, the library side keeps sending large buffers with a 60 ms timeout until a
+      // call times out.  Every call either reports the bytes it put into the stream or fails having put none there (checked at the end of
+      // the stream: the peer must have received exactly the bytes reported as sent); a time-out is a real reason, a retry condition is not.
+      { std::lock_guard<std::mutex> g(peer.mx); peer.pause = true; }
+      for (int i = 0; i < 4000; i++) { { std::lock_guard<std::mutex> g(peer.mx); if (peer.paused) break; } usleep(500); }
+      p_socket_set_timeout(ls, 60);
+      size_t n = (size_t)std::max<long>(65536, std::min<long>(s.a * 8, 4 << 20)); bool timed_out = false;
+      for (int it = 0; it < 400 && !timed_out && out.verdict.empty(); it++) {
+        string b(n, 0); for (size_t i = 0; i < n; i++) b[i] = (char)pat(1, out_pos + i);
+        PError *err = NULL; pssize r = p_socket_send(ls, b.data(), n, &err);
+        if (r < 0) {
+          if (would_block_code(err)) fail("blocking-reports-retry", "blocking send with timeout reported an internal would-block / interrupted condition: " + errstr(err));
+          else if (!err || p_error_get_code(err) != P_ERROR_IO_TIMED_OUT) fail("send", "blocking send with timeout to a stalled (live) peer failed with " + errstr(err) + " instead of timed-out");
+          timed_out = true;
+        } else if (r == 0 || (size_t)r > n) fail("send", "send returned " + std::to_string(r) + " for " + std::to_string(n) + " bytes");
+        else { if ((size_t)r < n) { short_seen = true; vl::stats().klass("short_send"); } out_pos += (size_t)r; }
+        if (err) p_error_free(err);
+      }
+      if (timed_out) vl::stats().klass("send_timed_out_on_stalled_peer");
+      p_socket_set_timeout(ls, 0);
+      { std::lock_guard<std::mutex> g(peer.mx); peer.pause = false; }
     } else if (s.kind == 'X' && !peer_gone) {
       // peer goes away; the library side keeps writing: must get an error, never a signal
       { std::lock_guard<std::mutex> g(peer.mx); peer.close_req = true; }
@@ -688,12 +710,12 @@ rc::Gen<Fault> genFault(const vector<string> &calls, bool only_eintr) {
 rc::Gen<Case> genC09() {
   using namespace rc;
   auto size = gen::weightedOneOf<long>({{6, gen::element<long>(1, 2, 1023, 1024, 4096, 65507, 70000)}, {2, gen::map(rng(1, 200000), [](int v) { return (long)v; })}, {1, gen::just(1L << 20)}});
-  auto step = gen::map(gen::tuple(gen::weightedElement<char>({{5, 'S'}, {5, 'R'}, {4, 'P'}, {3, 'D'}}), size), [](const std::tuple<char, long> &t) { Step s; s.kind = std::get<0>(t); s.a = std::get<1>(t); return s; });
+  auto step = gen::map(gen::tuple(gen::weightedElement<char>({{10, 'S'}, {10, 'R'}, {8, 'P'}, {6, 'D'}, {1, 'T'}}), size), [](const std::tuple<char, long> &t) { Step s; s.kind = std::get<0>(t); s.a = std::get<1>(t); return s; });
   return gen::map(gen::tuple(gen::element(4, 4, 6), gen::element<string>("tcp_client", "tcp_server", "udp"), gen::weightedElement<int>({{4, 1}, {1, 0}}), gen::element(0, 0, 2048, 8192), rng(0, 3),
                              gen::resize(4, gen::container<vector<Fault>>(genFault({"send", "recv", "sendto", "recvfrom", "poll", "connect", "accept"}, false))), gen::resize(14, gen::container<vector<Step>>(step)), rng(0, 6)),
                   [](const std::tuple<int, string, int, int, int, vector<Fault>, vector<Step>, int> &t) {
                     Case c; c.prop = "C09"; c.fam = std::get<0>(t); c.kind = std::get<1>(t); c.blocking = std::get<2>(t); c.sndbuf = std::get<3>(t); c.peer_mode = std::get<4>(t); c.plan = std::get<5>(t);
-                    for (auto s : std::get<6>(t)) { if (c.kind == "udp") { if (s.kind == 'P') s.kind = 'D'; s.a = std::min<long>(s.a, 65507); } else if (s.kind == 'D') s.kind = 'P'; c.steps.push_back(s); }
+                    for (auto s : std::get<6>(t)) { if (c.kind == "udp") { if (s.kind == 'P' || s.kind == 'T') s.kind = 'D'; s.a = std::min<long>(s.a, 65507); } else if (s.kind == 'D') s.kind = 'P'; c.steps.push_back(s); }
                     if (c.kind != "udp" && std::get<7>(t) == 0) { Step x; x.kind = 'X'; c.steps.push_back(x); }
                     return c; });
 }
@@ -757,6 +779,16 @@ void enumerate(const string &prop, long shard, long nshards) {
             else c.steps = {Step{'P', 5000, 0}, Step{'S', 3000, 0}, Step{'R', 1024, 0}, Step{'S', 100000, 0}, Step{'R', 4096, 0}, Step{'S', 1, 0}, Step{'P', 70000, 0}, Step{'R', 70000, 0}, Step{'R', 70000, 0}};
             exec("enum", c, false);
           }
+    // stalled receiver + send timeout, with and without one fault on send / poll, small and default send buffer
+    for (const char *kind : {"tcp_client", "tcp_server"})
+      for (int sb : {0, 4096})
+        for (int fk = 0; fk <= 3; fk++) {
+          if ((idx++ % nshards) != shard) continue;
+          Case c; c.prop = "C09"; c.fam = 4; c.kind = kind; c.blocking = 1; c.sndbuf = sb; c.peer_mode = fk % 3;
+          if (fk) { Fault f; f.call = fk == 1 ? "poll" : "send"; f.k = 2; f.kind = fk == 1 ? 1 : fk; f.arg = 1000; f.burst = 1; c.plan.push_back(f); }
+          c.steps = {Step{'S', 3000, 0}, Step{'T', 1 << 19, 0}, Step{'P', 500, 0}, Step{'R', 1024, 0}, Step{'S', 70000, 0}};
+          exec("enum", c, false);
+        }
     vl::stats().exhaustive["C09_every_single_fault_plan_call_x_k<=6_x_fault_on_3_base_transfers"] = true;
   } else if (prop == "C19") {
     struct Site { const char *scen; const char *call; };
